@@ -400,3 +400,46 @@ def run(db, cx):
               path=lst[0][1][:12] if lst else None,
               why="an observer that writes state changes the steps it observes")
     cx.floor("observer actions", len(seen), 4)
+    all_streams(db, cx)
+
+
+def all_streams(db, cx):
+    """C17.10-all-streams: tallies live in per-stream states that are allocated lazily, in no
+    particular order; the totals reported to the user (SimpleCalo, ActionDiagnostic,
+    StepDiagnostic) are folds over *all* streams.  Every loop over `num_streams()` in the
+    StreamStore helpers is left only through its own termination test: a `break` or `return`
+    inside drops the streams above the first one without a state."""
+    from cfg import loops_of
+    n = 0
+    seen = set()
+    for nm in db.find(r"^celeritas::(accumulate_over_streams|apply_to_all_streams)$"):
+        for f in db.get(nm):
+            loops = loops_of(f)
+            outer = [(h, body) for (h, body) in loops
+                     if not any(h != h2 and h in b2 for (h2, b2) in loops)]
+            k = 0
+            for (h, body) in outer:
+                # is it the loop over the streams?  its range/bound comes from num_streams()
+                pre = [ev for p in f.preds(h) if p not in body for ev in f.blocks[p]["ev"]]
+                if not any(any(c.endswith("::num_streams") for c in ev.get("calls", []))
+                           for ev in pre + f.blocks[h]["ev"]):
+                    continue
+                k += 1
+                early = []
+                for bb in sorted(body):
+                    if bb == h:
+                        continue
+                    for sx in f.succ(bb):
+                        if sx is not None and sx not in body and not f.is_exceptional(sx):
+                            early.append(bb)
+                key = (f.loc, k, bool(early))
+                if key in seen:
+                    continue
+                seen.add(key)
+                n += 1
+                cx.ob("C17.10-all-streams", "%s: stream loop %d visits every stream (no exit from inside the loop)"
+                      % (nm.split("::")[-1], k), not early,
+                      "left early from block(s) %s" % early if early else "", short(f.loc),
+                      why="states are allocated lazily per stream: stopping at the first stream without "
+                          "one drops the tallies of every higher-numbered stream from the reported total")
+    cx.floor("stream loops in the StreamStore helpers", n, 3)
